@@ -606,6 +606,14 @@ func (runInfo *runInfoStruct) invokeNilCoalescingOpExpr(expr *ast.NilCoalescingO
 			return
 		}
 	} else {
+		// an interruption is not a failure of the left side: it ends the run
+		select {
+		case <-runInfo.ctx.Done():
+			runInfo.rv = nilValue
+			runInfo.err = ErrInterrupt
+			return
+		default:
+		}
 		runInfo.err = nil
 	}
 	runInfo.expr = expr.RHS
